@@ -32,7 +32,7 @@ F = Fraction
 
 
 def cases(tier, seed):
-    q = tier != 'thorough'
+    q = False          # the full bounds cost about a minute: quick and thorough coincide
     import random
     rnd = random.Random(seed)
     pairs4 = [(a, b) for a in range(4) for b in range(4) if a != b]
